@@ -41,6 +41,8 @@ Definition L_expected : text := Eval vm_compute in s2z "expected".
 Definition L_Undecodable : text := Eval vm_compute in s2z "Undecodable: ".
 
 (* literals used by the theorems and examples *)
+Definition s2z_FOO : text := Eval vm_compute in s2z "FOO".
+Definition T_TICK_5 : text := Eval vm_compute in s2z "TICK_5".
 Definition T_PROCESS_STATE_prefix : text := Eval vm_compute in s2z "PROCESS_STATE_".
 Definition T_PROCESS_STATE_BACKOFF : text := Eval vm_compute in s2z "PROCESS_STATE_BACKOFF".
 Definition T_PROCESS_STATE_EXITED : text := Eval vm_compute in s2z "PROCESS_STATE_EXITED".
